@@ -80,6 +80,7 @@ type GhostVar struct {
 // GhostUpdate: "onassign <local> [in loop N]: name = expr" — executed right after every
 // assignment to the named local variable (inside loop N when given).
 type GhostUpdate struct {
+	OnCall string // "oncall <callee>: name = expr": executed at every call of callee (before its effect)
 	Local string
 	Loop  int
 	Name  string
@@ -120,7 +121,7 @@ var tagRe = regexp.MustCompile(`^\[([A-Za-z0-9_, ]+)(?::([A-Za-z0-9_\-\.]+))?\]\
 var keywords = map[string]bool{
 	"func": true, "props": true, "requires": true, "ensures": true, "modifies": true,
 	"loop": true, "invariant": true, "decreases": true, "inline": true, "trusted": true,
-	"pure": true, "unroll": true, "spec": true, "package": true, "noterm": true, "assert": true, "axiom": true, "lemma": true, "callsite": true, "ghost": true, "onassign": true,
+	"pure": true, "unroll": true, "spec": true, "package": true, "noterm": true, "assert": true, "axiom": true, "lemma": true, "callsite": true, "ghost": true, "onassign": true, "oncall": true,
 }
 
 // LoadFile parses a contract file. pkgPath is the default package path
@@ -306,6 +307,23 @@ func (cs *Contracts) LoadFile(path string, pkgPath string, external bool) error 
 				as := strings.SplitN(rest[i+1:], "=", 2)
 				if len(as) != 2 {
 					return errf("onassign needs an assignment")
+				}
+				gu.Name = strings.TrimSpace(as[0])
+				e, err := ParseExpr(strings.TrimSpace(as[1]))
+				if err != nil {
+					return errf("%v", err)
+				}
+				gu.E = e
+				cur.GhostUps = append(cur.GhostUps, gu)
+			case "oncall":
+				i := strings.Index(rest, ":")
+				if i < 0 {
+					return errf("oncall needs '<callee>: name = expr'")
+				}
+				gu := &GhostUpdate{OnCall: strings.TrimSpace(rest[:i]), Text: rest}
+				as := strings.SplitN(rest[i+1:], "=", 2)
+				if len(as) != 2 {
+					return errf("oncall needs an assignment")
 				}
 				gu.Name = strings.TrimSpace(as[0])
 				e, err := ParseExpr(strings.TrimSpace(as[1]))
